@@ -45,6 +45,9 @@ CHECKS = {
  "C12": ("bounded-exhaustive fault-style enumeration: every base program x every statement position x one injected unsupported construct, verdict rejected / unbuildable / builds-and-agrees with the reference",
          "Every base program of the full control-flow grammar up to size 1 (quick) / 2 (thorough), plus the empty base, gets one unsupported construct inserted at every statement position of every block: goto over an effect / over a yield, labelled break / continue out of a nested loop, select, defer (plain, in an if, in a loop), fallthrough out of / into a yielding case, range over pointer-to-array, yield in an if initialiser, yield inside a plain closure - and the same constructs inside nested plain closures as negative controls that must be accepted. Hand-written additions: range over a type parameter, over a pointer variable, wrong result signatures (must be rejected). A program that is rejected with a diagnostic or whose output does not build satisfies the property; one that builds is explored like any other program and its marked log must equal the reference's (in which Go compiles the construct natively inside the coroutine body).",
          PROG_NOTE + " `go Yield(v)` is excluded from exploration (no defined reference behaviour); its rejection is covered by the same diagnostic.", "DESIGN.md section 2 C12"),
+ "C13": ("bounded-exhaustive product enumeration of eta-shaped closures (callee x parameter shape x placement), bystander declarations and import configurations; Go itself as oracle (identical text as reference)",
+         "Product family over the callee of a closure func(params) R { return callee(args) } (package function, local function variable reassigned later, nil variable assigned later, method value with receiver reassigned / mutated later, struct field function, call result, builtin, conversion, generic function instantiated / inferred, variadic spread, result widening, recursive variable), parameter shapes (same, unnamed, blank, swapped, subset, extra statement) and placements (plain function, package-level initialiser, generator body around yields, yielded expression, loop condition); hand-written bystanders (consts with iota, initialisation order with effects, init functions, methods, generic function, //go:noinline, closures with capture by reference and defer, labels/goto/select/fallthrough in plain functions, side-effect import); one-file-per-program import configurations (dot / named / renamed API import, seq already imported) x declaration kinds x element types x result styles. Plain code is ordinary Go, so the derived reference is the identical text compiled by Go; marked logs must be equal on every path and injected panic, the output must build, and no side-effect import may disappear.",
+         PROG_NOTE, "DESIGN.md section 2 C13"),
  "C14": ("exhaustive enumeration of interleavings: every ordered k-tuple of live iterators x every schedule of m advances each, each iterator compared with its solo run",
          "A pool of 9 compiled generators (closure state, recursive tree walk and recursion through YieldFrom, range-backed, infinite with switch/continue, consumer-inside-generator, generator literal called twice, type switch with yielding post, hand-advanced delegate) is instantiated as every ordered pair (m=4/5) and triple (m=2/3) with repetition; all interleavings of the advances are executed on the real compiled code, each iterator with its own environment, and its (MoveNext, Current, private effect log) sequence must equal its solo run. At runtime level one Seq VALUE is started three times and all interleavings are run. Supplements, reported separately and not the basis of the claim: the same bodies free-running on goroutines under -race (sampling), and a static audit that seq/ and the generated code declare no package-level variable and no go statement.",
          "Trusted: solo run as oracle (its agreement with the source is C01/C02's subject and the pool is also explored there). The runtime has no synchronisation operations, so there are no scheduling points inside an advance; true parallelism is covered only by the sampled -race pass.", "DESIGN.md section 2 C14"),
